@@ -767,3 +767,50 @@ package quickfix
 //@   ensures @sess sessfull(session) && session.State == old(session.State)
 //@   ensures @once session.application.#n == old(session.application.#n) || (session.application.#n == old(session.application.#n) + 1 && ((session.store.#T == wrap64(old(session.store.#T) + 1) && session.store.#R == old(session.store.#R)) || nextState is latentState))
 //@   ensures @mono (session.store.#T >= old(session.store.#T) && session.store.#R == old(session.store.#R)) || session.store.#R > old(session.store.#R)
+
+// ---- keep-alive (C20) ---------------------------------------------------------------------------------------------
+//@ func (state inSession) Timeout [C20]
+//@   requires @sess sessfull(session)
+//@   atcall send @type (event == 1 ==> fhas(arg1.Header.FieldMap, 35) && onebyte(fval(arg1.Header.FieldMap, 35), 48)) && (event == 0 ==> fhas(arg1.Header.FieldMap, 35) && onebyte(fval(arg1.Header.FieldMap, 35), 49) && fhas(arg1.Body.FieldMap, 112))
+//@   atcall send @when event == 0 || event == 1
+//@   ensures @next nextState != nil && stok(nextState)
+//@   ensures @sess sessfull(session) && session.State == old(session.State)
+//@   ensures @nodelivery session.application.#n == old(session.application.#n)
+//@   ensures @target (session.store.#T == old(session.store.#T) && session.store.#R == old(session.store.#R)) || session.store.#R > old(session.store.#R)
+//@   ensures @pending event == 0 && !(nextState is latentState) ==> nextState is pendingTimeout && unbox(nextState, pendingTimeout).sessionState is inSession
+//@   ensures @heartbeat event == 1 && !(nextState is latentState) ==> nextState is inSession
+//@   ensures @others event != 0 && event != 1 ==> nextState is inSession && sent(session.messageOut) == old(sent(session.messageOut)) && session.store.#S == old(session.store.#S)
+
+//@ func (s pendingTimeout) Timeout [C20]
+//@   requires @sess sessfull(session) && stok(s.sessionState)
+//@   ensures @dead event == 0 ==> nextState is latentState
+//@   ensures @keep event != 0 ==> nextState is pendingTimeout && unbox(nextState, pendingTimeout).sessionState == s.sessionState
+//@   ensures @quiet sent(session.messageOut) == old(sent(session.messageOut)) && session.store.#S == old(session.store.#S) && session.store.#T == old(session.store.#T)
+//@   pure
+
+//@ func (s resendState) Timeout [C20]
+//@   requires @sess sessfull(session)
+//@   ensures @next nextState != nil
+//@   ensures @sess sessfull(session) && session.State == old(session.State)
+//@   ensures @recovery !(nextState is latentState) ==> (nextState is resendState && unbox(nextState, resendState).resendRangeEnd == s.resendRangeEnd && unbox(nextState, resendState).currentResendRangeEnd == s.currentResendRangeEnd && unbox(nextState, resendState).messageStash == s.messageStash) || (nextState is pendingTimeout && unbox(nextState, pendingTimeout).sessionState is resendState)
+
+//@ func (s logonState) Timeout [C08,C20]
+//@   requires @sess sessfull(session)
+//@   ensures e == 2 ==> nextState is latentState
+//@   ensures e != 2 ==> nextState is logonState
+//@   pure
+
+//@ func (state logoutState) Timeout [C08,C20]
+//@   requires @sess sessfull(session)
+//@   ensures event == 3 ==> nextState is latentState
+//@   ensures event != 3 ==> nextState is logoutState
+//@   pure
+
+// ---- the state machine (C08) ---------------------------------------------------------------------------------------
+// Not under contract (not decided, see DESIGN.md): stateMachine.Incoming / Timeout / CheckSessionTime / setState and
+// session.onDisconnect with its draining loop call back into the whole machine; what is verified is each state's
+// handler (above), the send path, and the two functions below.
+//@ func (sm *stateMachine) notifyInSessionTime [C08]
+//@   requires sm != nil && (sm.notifyOnInSessionTime != nil ==> !closed(sm.notifyOnInSessionTime))
+//@   ensures sm.notifyOnInSessionTime == nil
+//@   modifies sm.notifyOnInSessionTime, heap Gh.chan.closed
